@@ -1,4 +1,5 @@
 I = "intermediates.py"
+E = "expr_container.py"
 WITNESSES = [
     dict(id="c12-t2_3-singles-typo", prop="C12", file=I, expect="R12h",
          old="        base = t1(indices=(k, b)) * eri((i, j, k, a))", new="        base = t1(indices=(k, a)) * eri((i, j, k, b))"),
@@ -193,4 +194,27 @@ WITNESSES = [
     dict(id="c12-ok-fresh-expansion-instead-of-copy", prop="C12", file=I, expect=None,
          old="        base = (\n            t2(indices=(i, k, a, c)) * eri((k, b, j, c))\n        )\n        itmd += (base.sympy - base.copy().permute((i, j)).sympy\n                 - base.copy().permute((a, b)).sympy\n                 + base.copy().permute((i, j), (a, b)).sympy)\n        return base_expr(itmd / denom, (i, j, a, b), (k, l, c, d))",
          new="        def x():\n            return t2(indices=(i, k, a, c)) * eri((k, b, j, c))\n        itmd += (x().sympy - x().permute((i, j)).sympy\n                 - x().permute((a, b)).sympy\n                 + x().permute((i, j), (a, b)).sympy)\n        return base_expr(itmd / denom, (i, j, a, b), (k, l, c, d))"),
+    # ---- R12k: expand_intermediates on powers (F46 Polynom, sibling of the Obj case b2a4fcf)
+    dict(id="c12-F46-revert", prop="C12", file=E, expect="R12k",
+         old="        exponent = self.exponent\n        if exponent == int(exponent) and exponent > 1:\n            # expand each factor of the power separately: the contracted\n            # indices of the intermediate definitions must not be shared\n            # between the factors\n            expanded = Mul(*[expand_bracket() for _ in range(int(exponent))])\n        else:\n            expanded = Pow(expand_bracket(), exponent)\n",
+         new="        expanded = Pow(expand_bracket(), self.exponent)\n"),
+    dict(id="c12-ok-F46-twin", prop="C12", file=E, expect=None,
+         old="        exponent = self.exponent\n        if exponent == int(exponent) and exponent > 1:\n            # expand each factor of the power separately: the contracted\n            # indices of the intermediate definitions must not be shared\n            # between the factors\n            expanded = Mul(*[expand_bracket() for _ in range(int(exponent))])\n        else:\n            expanded = Pow(expand_bracket(), exponent)\n",
+         new="        exponent = self.exponent\n        n_factors = int(exponent) if exponent == int(exponent) else 0\n        if n_factors <= 1:\n            expanded = Pow(expand_bracket(), exponent)\n        else:\n            brackets = []\n            while len(brackets) < n_factors:\n                brackets.append(expand_bracket())\n            expanded = Mul(*brackets)\n"),
+    dict(id="c12-obj-power-expansion-revert", prop="C12", file=E, expect="R12k",
+         old="            exponent = self.exponent\n            if exponent == int(exponent) and exponent > 1:\n                # expand each factor separately: the contracted indices\n                # of the definition must not be shared between the factors\n                expanded = Mul(*[\n                    itmd.expand_itmd(indices=self.idx, return_sympy=True,\n                                     fully_expand=fully_expand)\n                    for _ in range(int(exponent))\n                ])\n            else:\n                expanded = itmd.expand_itmd(\n                    indices=self.idx, return_sympy=True,\n                    fully_expand=fully_expand\n                )\n                expanded = Pow(expanded, exponent)\n",
+         new="            expanded = itmd.expand_itmd(\n                indices=self.idx, return_sympy=True,\n                fully_expand=fully_expand\n            )\n            expanded = Pow(expanded, self.exponent)\n"),
+    dict(id="c12-ok-obj-power-expansion-twin", prop="C12", file=E, expect=None,
+         old="            exponent = self.exponent\n            if exponent == int(exponent) and exponent > 1:\n                # expand each factor separately: the contracted indices\n                # of the definition must not be shared between the factors\n                expanded = Mul(*[\n                    itmd.expand_itmd(indices=self.idx, return_sympy=True,\n                                     fully_expand=fully_expand)\n                    for _ in range(int(exponent))\n                ])\n            else:\n                expanded = itmd.expand_itmd(\n                    indices=self.idx, return_sympy=True,\n                    fully_expand=fully_expand\n                )\n                expanded = Pow(expanded, exponent)\n",
+         new="            exponent = self.exponent\n\n            def definition():\n                return itmd.expand_itmd(self.idx, True, fully_expand)\n            if exponent == int(exponent) and exponent > 1:\n                expanded = 1\n                for _ in range(int(exponent)):\n                    expanded = expanded * definition()\n            else:\n                expanded = Pow(definition(), exponent)\n"),
+    # the expansion level is not forwarded to the factors of a power
+    dict(id="c12-polynom-expansion-level-dropped", prop="C12", file=E, expect="R12k",
+         old="        def expand_bracket():\n            return Add(*[\n                t.expand_intermediates(target, return_sympy=True,\n                                       fully_expand=fully_expand)",
+         new="        def expand_bracket():\n            return Add(*[\n                t.expand_intermediates(target, return_sympy=True)"),
+    # ---- F38 (fock spin blocks): the RE residuals have spin blocks now
+    dict(id="c12-F38-revert", prop="C12", file=E, expect="R12f",
+         old="            # fock matrix: a spin free one particle operator\n            # -> only the spin conserving blocks do not vanish\n            elif name == tensor_names.fock and len(obj.idx) == 2:\n                return (\"aa\", \"bb\")\n", new=""),
+    dict(id="c12-ok-F38-twin", prop="C12", file=E, expect=None,
+         old="            elif name == tensor_names.fock and len(obj.idx) == 2:\n                return (\"aa\", \"bb\")\n",
+         new="            elif len(obj.idx) == 2 and tensor_names.fock == name:\n                return tuple(s + s for s in \"ab\")\n"),
 ]
